@@ -516,6 +516,117 @@ def check_overlap(run, scs, fixed_mode):
     return stats
 
 
+# ---------------------------------------------------------------- the real InformerMap
+
+def RW(o, g, lst="ok"):
+    return {"op": "watch", "o": o, "g": g, "list": lst}
+
+
+def real_scenarios(r, tier):
+    tail = [F(0), F(1)]           # every scenario ends with all owners freed: no stream may be left
+    c = [
+        [RW(0, 0, "hang"), RW(0, 0), G(0), F(0), G(0)],
+        [RW(0, 0), RW(1, 0, "hang"), F(0), L(0)],
+        [RW(0, 0, "hang"), RW(1, 0, "hang"), RW(0, 0), RW(1, 0), F(0), L(0)],
+        [RW(0, 0), RW(0, 1, "hang"), F(0), RW(0, 1), L(1)],
+        [RW(0, 0, "hang"), F(0), RW(0, 0)],
+        [RW(0, 0), RW(0, 1), RW(1, 1), F(0), L(0), L(1)],
+        [G(0), RW(0, 0, "hang"), G(0), L(0), RW(1, 0)],
+    ]
+    letters = [RW(o, g, m) for o in range(2) for g in range(2) for m in ("ok", "hang")] + [F(0), F(1)]
+    if tier == "thorough":
+        c += [[x] for x in letters] + [[x, y] for x in letters for y in letters]
+        c += [[RW(0, 0, "fail"), RW(0, 0)], [RW(0, 0), RW(1, 1, "fail"), RW(0, 1), F(1)], [RW(1, 0, "fail"), F(1), RW(0, 0, "hang"), RW(0, 0)]]
+    for _ in range(14 if tier == "quick" else 150):
+        ops = []
+        for _ in range(r.randint(3, 5 if tier == "quick" else 7)):
+            x = r.random()
+            if x < 0.55:
+                ops.append(RW(r.randrange(2), r.randrange(2), "hang" if r.random() < 0.4 else "ok"))
+            elif x < 0.8:
+                ops.append(F(r.randrange(2)))
+            else:
+                ops.append(r.choice([G, L])(r.randrange(2)))
+        c.append(ops)
+    return [{"handlers": 2, "kinds": 2, "ops": ops + tail} for ops in c]
+
+
+def run_real(scs):
+    """one harness process per scenario (they spend their time waiting), 16 at a time"""
+    def run(sc):
+        p = subprocess.run(["timeout", "300", vlib.HARNESS, "cachereal"], input=json.dumps(sc) + "\n", stdout=subprocess.PIPE,
+                           stderr=subprocess.PIPE, text=True, env=vlib.go_env())
+        for l in p.stdout.split("\n"):
+            if l.strip():
+                return json.loads(l)
+        return {"err": "harness died rc=%d %s" % (p.returncode, p.stderr[-1500:])}
+    with ThreadPoolExecutor(max_workers=16) as ex:
+        return list(ex.map(run, scs))
+
+
+def real_model_op(op):
+    if op["op"] == "watch":
+        return "Watch %s %s %s" % (cN(op["o"]), cN(op["g"]), "informer_sync_fails" if op.get("list") in ("hang", "fail") else "ok")
+    return c_op(op)
+
+
+def real_term(sc, obs):
+    steps = []
+    for op, st in zip(sc["ops"], obs["steps"]):
+        snap = cL([cP(cN(g), c_owners(x)) for g, x in enumerate(st["snap"])])
+        streams = cL([cP(cN(g), cN(n)) for g, n in enumerate(st["streams"])])
+        deliv = cL([cP(cN(g), cL([cN(h) for h in d])) for g, d in enumerate(st["delivered"])])
+        steps.append(cP(real_model_op(op), "RObs %s %s %s %s" % (ERRS[st["err"]], snap, streams, deliv)))
+    peaks = cL([cP(cN(g), cN(n)) for g, n in enumerate(obs["peak"])])
+    return "(%s : real_case)" % cP(cL([cN(h) for h in range(sc["handlers"])]), cL([cN(g) for g in range(sc["kinds"])]),
+                                   cL(steps), peaks)
+
+
+def check_real(run, scs, fixed_mode):
+    """The real Cache on the real InformerMap with a fake API server; judged inside Coq (C12Corr.judge_real)."""
+    outs = run_real(scs)
+    terms, idx = [], []
+    for i, (sc, o) in enumerate(zip(scs, outs)):
+        if "obs" not in o:
+            run.violation("corr:C12/harness error", {"correspondence": "harness (cachereal)", "scenario": sc, "out": o}, False)
+            continue
+        if any(st["err"] not in ERRS for st in o["obs"]["steps"]):
+            run.violation("corr:C12/unexpected error class", {"correspondence": "error classes (cachereal)", "scenario": sc,
+                                                               "impl": o["obs"]}, False)
+            continue
+        terms.append(real_term(sc, o["obs"]))
+        idx.append(i)
+    res, logs = vlib.judge_cases("C12", IMPORTS, "judge_real", terms, 5, shard=40, tag="real")
+    for l in logs:
+        run.violation("corr:C12/coq-eval", {"correspondence": "coq evaluation failed", "log": l}, False)
+    n = 0
+    for i, v in zip(idx, res):
+        if v is None:
+            continue
+        n += 1
+        sc, ob = scs[i], outs[i]["obs"]
+        a_cur, a_fix, streams_ok, deliv_ok, peaks_ok = v
+        rep = {"scenario": sc, "impl": ob, "judge_real(agree_current,agree_fixed,streams,delivered,peaks)": list(v)}
+        if not (streams_ok and peaks_ok):
+            if a_cur and streams_ok and peaks_ok:
+                pass
+            run.violation("C12 real InformerMap: running informers (open WATCH streams) do not match the kinds' owners"
+                          + ("" if peaks_ok else " - two informers of one kind at once"), rep, True)
+        elif not deliv_ok:
+            if a_cur and any(op.get("list") in ("hang", "fail") for op in sc["ops"]):
+                run.violation(IDENT_FC12, rep, True)
+            else:
+                run.violation("C12 real InformerMap: a running informer does not deliver events to all registered handlers", rep, True)
+        elif not (a_fix if fixed_mode else a_cur):
+            rep["correspondence"] = "C12Corr.agree_real"
+            run.violation("corr:C12/real InformerMap: model and implementation differ", rep, False)
+        run.classes.add(("real",) + tuple((op["op"], op.get("list", ""), st["err"], tuple(st["streams"]))
+                                          for op, st in zip(sc["ops"], ob["steps"])))
+    run.cov["evaluations"] += n
+    return {"scenarios": n, "operations": sum(len(s["ops"]) for s in scs),
+            "with_hanging_or_failing_LIST": sum(1 for s in scs if any(op.get("list") in ("hang", "fail") for op in s["ops"]))}
+
+
 # ---------------------------------------------------------------- concurrent callers
 
 def race_scenarios(r, n):
@@ -663,8 +774,10 @@ def check(run, tier, seed, replay=None):
     run.assumptions += [
         "atomic steps are the critical sections of informerReferencesMux; that the mutex serialises them is runtime "
         "behaviour, supported (not proved) by the concurrent -race runs of the thorough tier",
-        "the informer map is scripted: it has the Get/Delete semantics of InformerMap (informer_map.go) and fails only when "
-        "told to; client-go informers themselves (event delivery after AddEventHandler) are not modelled",
+        "in the sequence sweeps and overlapping-call runs the informer map is scripted: it has the Get/Delete semantics of "
+        "InformerMap (informer_map.go) and fails only when told to; the real InformerMap and real client-go informers are "
+        "exercised by the cachereal stage against a fake API server (timing-based: bounded waits of 2 s for streams to "
+        "open/close, 150 ms sync deadline)",
         "Cache.recorder is nil in the harness (sampleMetrics is a no-op); with a recorder, sampleMetrics lists every "
         "referenced kind after each Watch/Free and would start the handler-less informer of F-C12 even earlier",
         "informerMap.Delete failures are outside the property's quantifier (the real Delete cannot fail): a kind whose "
@@ -712,6 +825,10 @@ def check(run, tier, seed, replay=None):
             return
         check_race(run, [json.load(open(replay))["replay"]["scenario"]] * 5, fixed_mode)
         run.cov["rule"] = "replay of one recorded concurrent scenario, 5 runs"
+        return
+    if replay and any("list" in op and op["op"] == "watch" for op in json.load(open(replay))["replay"].get("scenario", {}).get("ops", [])):
+        check_real(run, [json.load(open(replay))["replay"]["scenario"]], fixed_mode)
+        run.cov["rule"] = "replay of one recorded real-InformerMap scenario"
         return
     if replay and "calls" in json.load(open(replay))["replay"].get("scenario", {}):
         check_overlap(run, [json.load(open(replay))["replay"]["scenario"]] * 3, fixed_mode)
@@ -808,7 +925,12 @@ def check(run, tier, seed, replay=None):
     run.cov["overlapping_calls"] = ostats
     t_overlap = time.time() - t3
 
-    # 4. concurrent callers under the race detector
+    # 4. the real InformerMap and real informers on a fake API server
+    t4 = time.time()
+    run.cov["real_informer_map"] = check_real(run, real_scenarios(r, tier), fixed_mode)
+    t_real = time.time() - t4
+
+    # 5. concurrent callers under the race detector
     t_race = 0.0
     if tier == "thorough":
         t2 = time.time()
@@ -832,10 +954,15 @@ def check(run, tier, seed, replay=None):
         "Delete failure) is held before/after the effect of each of its informer-map / AddEventHandler calls while call B "
         "(thorough: also B and C) is started on another goroutine and returns or blocks; the joint outcome is judged inside "
         "Coq by lin_agree (some serial order of the model) and the final-state monitor; distinct overlap classes = (A, hook, "
-        "others, error classes) of cases in which another call returned while A was held" %
+        "others, error classes) of cases in which another call returned while A was held; real InformerMap: the real Cache "
+        "on the real InformerMap and client-go informers over a fake API server whose LIST hangs/fails during chosen Watch "
+        "calls (150 ms deadline); per operation, after a bounded wait: open WATCH streams per kind, handlers reached by an "
+        "event sent down the streams, OwnersForGKV; judged inside Coq by judge_real" %
         ("/".join(str(c[2]) for c in configs), "/".join("%dx%d" % (c[0], c[1]) for c in configs)))
     run.cov["trusted_base"] = run.cov.get("trusted_base", []) + [
         "exhaustive sweeps: Coq extraction to OCaml of C12Corr.judge (no Extract Constant/Inductive directives), ocamlopt, "
         "harness/ocaml/c12_driver.ml (decoding); not-fine classes and a random sample are re-evaluated by vm_compute",
-        "Go harness mode_cache.go (scripted informer map, handler identification by probe event), Python driver"]
-    run.notes.append("timings: flat %.0fs, sweep %.0fs, overlap %.0fs, race %.0fs" % (t_flat, t_sweep, t_overlap, t_race))
+        "Go harness mode_cache.go (scripted informer map, handler identification by probe event), mode_cache_real.go (fake "
+        "dynamic client counting LIST/WATCH, bounded waits), Python driver"]
+    run.notes.append("timings: flat %.0fs, sweep %.0fs, overlap %.0fs, real informer map %.0fs, race %.0fs" %
+                     (t_flat, t_sweep, t_overlap, t_real, t_race))
